@@ -104,13 +104,35 @@ def doc_evidence(ctx, obs, what):
                        "text comparisons are up to runs of blanks inside step text"]
 
 
+def respelled(ctx, nsim):
+    """well-formed generated documents respelled by the generator's variants (comments, wraps, blanks, CRLF, fences - also inside
+    names): each keeps the prediction of its base document"""
+    out = []
+    for cfg, n in [("MC_Doc_var_sim_ext.cfg", nsim), ("MC_Doc_var_sim_canon.cfg", nsim // 2)]:
+        for d in gen_docs(ctx, cfg, simulate=n):
+            if "variants" not in d or not d["pred"].get("wellformed"):
+                continue
+            for k, v in sorted(d["variants"].items()):
+                if v != d["text"]:
+                    x = {a: b for a, b in d.items() if a != "variants"}
+                    x["text"] = v
+                    x["src"] = cfg + ":" + k
+                    out.append(x)
+    return out
+
+
 def check_c01(ctx):
     core.build_harness()
     recs = generated_corpus(ctx)
+    resp = respelled(ctx, 250 if ctx.tier == "quick" else 5000)
+    ctx.extra["respelled_documents"] = len(resp)
+    recs += resp
     pout, obs = record_docs(ctx, recs)
     judge_docs(ctx, "C01", "Trace_Doc_C01.cfg", pout, obs)
     doc_evidence(ctx, obs, "C01 judges the well-formed ones: no error, and components, relations, sections, step text, "
-                           "numbers, metadata and servings equal to the prediction.")
+                           "numbers, metadata and servings equal to the prediction; each well-formed random document "
+                           "is also judged in every respelling the generator knows (comments, wraps and blanks between and "
+                           "inside names, CRLF, blank lines, fences) against the same prediction.")
     ctx.extra["wellformed_documents"] = sum(1 for x in obs if x.get("pred", {}).get("wellformed"))
     from . import p_parser
     p_parser.conformance(ctx, "C01")
